@@ -1082,7 +1082,7 @@ static int parse_single_cert(psPool_t *pool, const unsigned char **pp,
 #  endif
 
     /* As the next three values are optional, we can do a specific test here */
-    if (*p != (ASN_SEQUENCE | ASN_CONSTRUCTED))
+    if (p < end && *p != (ASN_SEQUENCE | ASN_CONSTRUCTED))
     {
         if (getImplicitBitString(pool, &p, (uint32) (end - p),
                         IMPLICIT_ISSUER_ID, &cert->uniqueIssuerId,
@@ -4009,7 +4009,7 @@ int32_t parseAuthorityInfoAccess(psPool_t *pool,
             return PS_PARSE_FAIL;
         }
         /* accessMethod. */
-        if (*p++ != ASN_OID)
+        if ((authInfoEnd - p) < 1 || *p++ != ASN_OID)
         {
             psTraceCrypto("Malformed extension header\n");
             return PS_PARSE_FAIL;
@@ -4036,6 +4036,11 @@ int32_t parseAuthorityInfoAccess(psPool_t *pool,
             return PS_PARSE_FAIL;
         }
         /* accessLocation. */
+        if ((authInfoEnd - p) < 1)
+        {
+            psTraceCrypto("Missing accessLocation in authInfo parsing\n");
+            return PS_PARSE_FAIL;
+        }
         switch (*p++)
         {
         case (ASN_CONTEXT_SPECIFIC + 6):
@@ -4289,7 +4294,7 @@ KNOWN_EXT:
                 sense if cA is true.  If it's missing, there is no limit to
                 the cert path
  */
-            if (*p == ASN_INTEGER)
+            if (p < extEnd && *p == ASN_INTEGER)
             {
                 if (getAsnInteger(&p, (uint32) (extEnd - p),
                         &(extensions->bc.pathLenConstraint)) < 0)
@@ -4338,7 +4343,7 @@ KNOWN_EXT:
                     encipherOnly                        (7),
                     decipherOnly                        (8) }
  */
-            if (*p++ != ASN_BIT_STRING)
+            if (extEnd - p < 1 || *p++ != ASN_BIT_STRING)
             {
                 psTraceCrypto("Error parsing keyUsage extension\n");
                 return PS_PARSE_FAIL;
@@ -4372,7 +4377,7 @@ KNOWN_EXT:
                BIT STRING, which is not included in the length. This is
                an incorrect encoding, but let's be liberal in what we
                accept. */
-            if (*p == 0x00)
+            if (p < extEnd && *p == 0x00)
             {
                 p++;
             }
@@ -4388,13 +4393,13 @@ KNOWN_EXT:
             save = p;
             while (fullExtLen > 0)
             {
-                if (*p++ != ASN_OID)
+                if (extEnd - p < 1 || *p++ != ASN_OID)
                 {
                     psTraceCrypto("Malformed extension header\n");
                     return PS_PARSE_FAIL;
                 }
-                if (getAsnLength(&p, fullExtLen, &len) < 0 ||
-                    fullExtLen < len)
+                if (getAsnLength(&p, (uint32) (extEnd - p), &len) < 0 ||
+                    (uint32) (extEnd - p) < len || fullExtLen < len)
                 {
                     psTraceCrypto("Malformed extension length\n");
                     return PS_PARSE_FAIL;
@@ -4468,13 +4473,15 @@ KNOWN_EXT:
             {
                 save = p;
 
-                if (*p == (ASN_CONTEXT_SPECIFIC | ASN_CONSTRUCTED | 0))
+                if (p < extEnd &&
+                    *p == (ASN_CONTEXT_SPECIFIC | ASN_CONSTRUCTED | 0))
                 {
                     /* permittedSubtrees */
                     p++;
                     nc = 0;
                 }
-                if (*p == (ASN_CONTEXT_SPECIFIC | ASN_CONSTRUCTED | 1))
+                if (p < extEnd &&
+                    *p == (ASN_CONTEXT_SPECIFIC | ASN_CONSTRUCTED | 1))
                 {
                     /* excludedSubtrees */
                     p++;
@@ -4572,7 +4579,8 @@ KNOWN_EXT:
                 }
                 fullExtLen -= len + (p - save);
                 /* All memebers are optional */
-                if (*p == (ASN_CONTEXT_SPECIFIC | ASN_CONSTRUCTED | 0))
+                if (p < extEnd &&
+                    *p == (ASN_CONTEXT_SPECIFIC | ASN_CONSTRUCTED | 0))
                 {
                     /* DistributionPointName */
                     p++;
@@ -4617,7 +4625,8 @@ KNOWN_EXT:
                         return PS_PARSE_FAIL;
                     }
                 }
-                if (*p == (ASN_CONTEXT_SPECIFIC | ASN_CONSTRUCTED | 1))
+                if (p < extEnd &&
+                    *p == (ASN_CONTEXT_SPECIFIC | ASN_CONSTRUCTED | 1))
                 {
                     p++;
                     /* ReasonFlags not parsed */
@@ -4629,7 +4638,8 @@ KNOWN_EXT:
                     }
                     p += len;
                 }
-                if (*p == (ASN_CONTEXT_SPECIFIC | ASN_CONSTRUCTED | 2))
+                if (p < extEnd &&
+                    *p == (ASN_CONTEXT_SPECIFIC | ASN_CONSTRUCTED | 2))
                 {
                     p++;
                     /* General Names not parsed */
@@ -4695,7 +4705,8 @@ KNOWN_EXT:
                 Memcpy(extensions->ak.keyId, p, extensions->ak.keyLen);
                 p = p + extensions->ak.keyLen;
             }
-            if (*p == (ASN_CONTEXT_SPECIFIC | ASN_CONSTRUCTED | 1))
+            if (p < extEnd &&
+                *p == (ASN_CONTEXT_SPECIFIC | ASN_CONSTRUCTED | 1))
             {
                 p++;
                 if (getAsnLength(&p, (int32) (extEnd - p), &len) < 0 ||
@@ -4725,8 +4736,9 @@ KNOWN_EXT:
                     return PS_PARSE_FAIL;
                 }
             }
-            if ((*p == (ASN_CONTEXT_SPECIFIC | ASN_PRIMITIVE | 2)) ||
-                (*p == ASN_INTEGER))
+            if (p < extEnd &&
+                ((*p == (ASN_CONTEXT_SPECIFIC | ASN_PRIMITIVE | 2)) ||
+                 (*p == ASN_INTEGER)))
             {
 /*
                     Treat as a serial number (not a native INTEGER)
@@ -4748,7 +4760,7 @@ KNOWN_EXT:
                 extension of certificates issued by the subject of
                 this certificate.
  */
-            if (*p++ != ASN_OCTET_STRING || getAsnLength(&p,
+            if (extEnd - p < 1 || *p++ != ASN_OCTET_STRING || getAsnLength(&p,
                     (int32) (extEnd - p), &(extensions->sk.len)) < 0 ||
                 (uint32) (extEnd - p) < extensions->sk.len)
             {
@@ -5489,6 +5501,11 @@ MORE_IN_SET:
         id = (int32) * p++;
 oid_parsing_done:
         /* Done with OID parsing */
+        if (dnEnd - p < 1)
+        {
+            psTraceCrypto("Malformed DN attributes 7b\n");
+            return PS_LIMIT_FAIL;
+        }
         stringType = (int32) * p++;
 
         if (getAsnLength(&p, (uint32) (dnEnd - p), &llen) < 0 ||
